@@ -928,7 +928,7 @@ PROPS = {
                        'centred truncation error <= 2^-(t*basebit+1), carries and wrap; row messages sum to s_i times the rounded value; lweKeySwitch wiring. '
                        'That the real translate loop subtracts exactly the rows those digits select, through the real 3-level table, is a bounded stand-in in n.',
         'assumptions': STD_ASSUME + [
-            'lweKeySwitchTranslate_fromArray, unbounded in n (loop contracts on both loops): (a) ARBITRARY mask, one watched index g_i (symbolic): ks[g_i] points to its own well-formed row block, every other ks[i] to a second one (__CPROVER_array_set gives every index a valid row without a quantifier): in iteration g_i exactly the rows of the non-zero round-to-nearest digits of a[g_i] are subtracted, once each, no other iteration touches them, every other access stays inside its block; (a\') all coordinates equal: exactly NZ(A) subtractions per index, n*NZ(A) in total; (b) the constructor's 3-level table, unbounded in n: second-level entry p points to element p*base of the contiguous array, first-level entry i to second-level entry i*t; (c) constructor and translate together on one concrete table: bounded stand-in (n in {1,2,3}(,5)), labelled bounded; layouts with t > 15 only in (c)',
+            'lweKeySwitchTranslate_fromArray, unbounded in n (loop contracts on both loops): (a) ARBITRARY mask, one watched index g_i (symbolic): ks[g_i] points to its own well-formed row block, every other ks[i] to a second one (__CPROVER_array_set gives every index a valid row without a quantifier): in iteration g_i exactly the rows of the non-zero round-to-nearest digits of a[g_i] are subtracted, once each, no other iteration touches them, every other access stays inside its block; (a\') all coordinates equal: exactly NZ(A) subtractions per index, n*NZ(A) in total; (b) the 3-level table built by the constructor, unbounded in n: second-level entry p points to element p*base of the contiguous array, first-level entry i to second-level entry i*t; (c) constructor and translate together on one concrete table: bounded stand-in (n in {1,2,3}(,5)), labelled bounded; layouts with t > 15 only in (c)',
             'phase conclusion phase(out) = phase(in) + sum_i s_i(a_i - abar_i) - sum noise(rows used): lemma + induction over n, the induction is not machine-checked',
             'noise statistics with a real noisy key-switching key: not decided (statistical)',
             'lweSubTo is the AVX2 assembly in optimised builds; its scalar body is proved in C14',
